@@ -531,9 +531,11 @@ def gen_dyn(g):
     scn['schedule'] = sched
     add_control(g, scn, model, chain, p=0.4)
     add_stops(g, scn, model, chain, p=0.25)
+    if not g.cfg.get('differential'):
+        add_query_tail(g, scn, model)
     if g.chance(0.08) and not g.cfg.get('differential') and \
             not any(o['op'] in ('branch_off', 'other_powertrain')
-                    for o in sched):
+                    for o in sched) and sched[-1]['op'] == 'run':
         # (a branch re-routes 'drives': a powertrain assembled afterwards
         # would follow the branch)
         add_remating_phase(g, scn, model, chain, k)
@@ -929,6 +931,10 @@ def gen_stop(g):
         sched.append(gen_run(g, k))
     if g.chance(0.15):
         sched.append(gen_run(g, k))
+    if g.chance(0.2):
+        # stop conditions combined with reset and rerun
+        sched.append({'op': 'reset', 'reapply': g.chance(0.7)})
+        sched.append(gen_run(g, k, solver=r.choice(['same', 'new'])))
     scn['schedule'] = sched
     add_control(g, scn, model, chain, p=0.5)
     # -- dry run (real code, no stop) to learn the reachable range
@@ -980,7 +986,7 @@ def gen_stop(g):
     scn['stops'] = [{'sensor': sensor, 'target': tgt, 'op': opname,
                      'thr': thr, 'place': place}]
     for i, op in enumerate(sched):
-        if i == 0 or g.chance(0.7):
+        if op['op'] == 'run' and (i == 0 or g.chance(0.7)):
             op['stop'] = 0
     return scn
 
@@ -1122,6 +1128,35 @@ def gen_query(g, profile='query'):
                            'at_byte': r.choice([0, 1, 50, 100, 400, 1000, 5000])}
         sched.append(op)
     return scn
+
+
+def add_query_tail(g, scn, model, p=0.3):
+    """Append a snapshot and an export to a scenario of another profile
+    (queries after unusual histories: re-declarations, in-place
+    conversions, branches, phases ...)."""
+    r = g.rng
+    sched = scn['schedule']
+    if not g.chance(p) or not sched or sched[-1]['op'] != 'run':
+        return
+    valid = []
+    for i, e in enumerate(scn['elements']):
+        mate = None
+        if e['kind'] == 'WormWheel' and i < len(model.mate) and \
+                model.mate[i] is not None:
+            mate = scn['elements'][model.mate[i]]
+        for v in advertised(e, mate):
+            if v not in valid:
+                valid.append(v)
+    base = ['angular position', 'angular speed', 'angular acceleration',
+            'torque', 'driving torque', 'load torque', 'pwm']
+    at = [r.random(), 0 if g.chance(0.4) else round(r.uniform(0.02, 0.98), 3),
+          r.choice(si.units_of('Time'))]
+    sched.append({'op': 'snapshot', 'at': at, 'units': out_units(g),
+                  'vars': r.choice([None, [r.choice(base)],
+                                    r.sample(base, 2)]),
+                  'as_interval': g.chance(0.2)})
+    sched.append({'op': 'export', 'units': out_units(g, export=True),
+                  'fault': None})
 
 
 def gen_tv(g):
